@@ -370,6 +370,13 @@ func (x *Exec) appendBuiltin(f *Frame, st *State, info *CallInfo) Val {
 			return UF("bytes_concat", SBytes, bt, at)
 		}
 		if bt != nil {
+			if ev, ok := add.(*EncVal); ok {
+				if eb := x.asBytes(st, ev); eb != nil {
+					return UF("bytes_concat", SBytes, bt, eb)
+				}
+			}
+		}
+		if bt != nil {
 			if gs, ok := add.(*GoSlice); ok {
 				cur := bt
 				for _, e := range gs.Elems {
